@@ -51,6 +51,16 @@ CATEGORIES_8 = """  * change 1: a *plausible optimisation* - a result is cached 
 Both changes ADD or RESTRUCTURE code (roughly 5-30 changed lines); neither is a one-token edit of an existing comparison or constant.
 Do not use `git stash` (the stash is shared between worktrees); to get back to the clean tree use `git checkout -- .`.
 """
+FOCUS_11 = {
+    "C02": "AssignedFeatureCounter.add_read_info (the if/elif chain on the assignment type), GeneAssignmentExtractor / TranscriptAssignmentExtractor.get_features, file_utils.merge_counts",
+    "C03": "DatasetProcessor.get_chr_list and process_assigned_reads, GeneInfo.set_introns_and_exons, TranscriptToGeneJoiner.join_transcripts / merge_genes, transcript_printer.create_extended_storage",
+    "C05": "InMemoryAlignmentStorage.fill_index / get_alignments / add_alignment, collect_reads_in_parallel (the list of processed reads), MultimapResolver.find_duplicates",
+    "C08": "DatasetProcessor.resolve_multimappers (filing the resolver's output per chromosome and writing it), MultimapResolver.resolve, prepare_multimapper_dict",
+    "C09": "FileNameGrouper.__init__ / get_group_id, create_read_grouper, get_file_grouping_properties / load_table, AssignedFeatureCounter.__init__ / dump_grouped",
+    "C13": "ExonCounter.add_read_info / IntronCounter.add_read_info, ProfileFeatureCounter.add_read_info_from_profile / dump, CombinedProfileConstructor.__init__",
+    "C15": "NormalTmpFileAssignmentLoader.get_object / QuickTmpFileAssignmentLoader.get_object, DatasetProcessor.resolve_multimappers and load of the *_multimappers_* files, serialization.write_int_neg / read_int_neg / write_string_or_none",
+    "C20": "read_mapper.find_stored_index / find_stored_bed / find_stored_alignment / store_alignment / align_fasta / map_reads, gtf2db.convert_db / compare_stored_gtf / find_converted_db, isoquant.set_configs_directory",
+}
 CATEGORIES_10 = """  * change 1: an INCORRECT optimisation that looks exactly like a correct one - a cache / memo keyed by almost everything the value
     depends on (one input missing: strand, chromosome, an option, the object it belongs to), or living slightly too long (per object
     where per call is needed, per process where per object is needed, surviving a reset), a fast path whose condition is almost but not
@@ -112,6 +122,9 @@ If the unmodified tree already violates the property in the situation you target
 note). At the end the worktree must have no tracked modifications. Report in a few lines what the two changes are.
 """
     elif int(rnd) >= 9:
+        FOCUS = ""
+        if int(rnd) >= 11 and pid in FOCUS_11:
+            FOCUS = "\nThis time work in (or directly around) these functions: " + FOCUS_11[pid] + "."
         body = f"""
 YOUR TASK: produce THREE *behaviour-preserving additions* to the code this property is anchored in - changes a careful maintainer could
 make, after which the property STILL HOLDS and the program computes exactly the same results for every input. They are used to find out
@@ -127,7 +140,7 @@ it - each of a different kind from this list:
   - a CORRECT generalisation: a function gains a parameter with a default that all existing callers rely on, a constant becomes a
     named class attribute, a literal table is built from a loop that produces the identical table, a context manager replaces an
     explicit open/close pair.
-Put the additions where the property's mechanisms live (the functions named in the anchors above, and their callers / callees).
+Put the additions where the property's mechanisms live (the functions named in the anchors above, and their callers / callees).{FOCUS}
 Each should be 8-40 changed lines and realistic.
 
 For each addition i = 1..3:
